@@ -183,6 +183,36 @@ def extorder(F, rep):
                             "present the front ends pick different modules" % (short, why), file=f.file, line=f.line,
                             fn=p))
     rep.floor("EXTORDER", "functions probing module file extensions", n, 2)
+    # files before directories: once `<m>/mod.*` is probed no `<m>.<ext>` probe may follow. The CLI's own resolver
+    # only knows `<m>.incn` / `<m>.incan`, so a directory module that can win over an existing `<m>.incan` makes the
+    # front ends that share this function pick a different file than the CLI for the same import.
+    sh = F.fns.get(SHARED)
+    if rep.anchor("EXTORDER", SHARED, sh):
+        filep = [bi for bi, t in sh.calls() if (callee_name(t) or "").endswith("PathBuf::set_extension") or
+                 (callee_name(t) or "").endswith("Path::with_extension")]
+        dirp = []
+        for bi, t in sh.calls():
+            if not (callee_name(t) or callee_generic(t) or "").split("::<")[0].endswith("Path::join"):
+                continue
+            _, calls, _ = backward_slice(sh, [op_place(o)["l"] for o in t["args"][1:] if op_place(o) is not None])
+            consts = [resolve_str(sh, o) for o in t["args"][1:]]
+            txt = [c for c in consts if c] + [v for b2, v in all_string_constants(sh)
+                                              if any(b2 == cb for cb, _ in calls)]
+            from engines import fn_fmt_templates
+            if any(x.startswith("mod.") for x in txt) or \
+                    (not any(consts) and any(x.startswith("mod.") for x in fn_fmt_templates(sh))):
+                dirp.append(bi)
+        if rep.anchor("EXTORDER", "file and directory probes in the shared resolver", filep and dirp):
+            back = [d for d in dirp if any(fp in sh.reachable(d) - {d} for fp in filep)]
+            ok = not back
+            rep.oblige("EXTORDER", "files-before-directories", ok,
+                       sample={"rule": "EXTORDER", "file_probes": len(filep), "directory_probes": len(dirp)})
+            if not ok:
+                rep.add(Finding("EXTORDER", "EXTORDER|resolve_import_path|files-before-directories",
+                                "a `<m>.<ext>` probe is reachable after a `<m>/mod.*` probe: a directory module can "
+                                "win over an existing `<m>.incan`, which the CLI's own resolver (file probes only) "
+                                "still picks - the front ends compile different files for one import",
+                                file=sh.file, line=sh.term(back[0]).get("ln"), fn=sh.path))
 
 
 def decl_value(F, kind, vis, populated=False):
@@ -544,6 +574,46 @@ def worklist(F, rep):
             if works and all(w in dom for w in works):
                 ok = True
         short = suffix.split("::")[-1]
+        # the key that is recorded is the key that is tested: an entry stored under another spelling of the path is
+        # never found again, and an import cycle is walked forever
+        PASS = ("clone", "to_string", "to_owned", "from", "deref", "as_str", "borrow", "as_ref", "into")
+
+        def key_root(o, depth=10):
+            pl = op_place(o)
+            while pl is not None and depth > 0:
+                depth -= 1
+                d = f.single_def(pl["l"])
+                if d is None:
+                    return ("local", pl["l"])
+                if d[2] == "call":
+                    g = (callee_generic(d[3]) or callee_name(d[3]) or "")
+                    if g.split("::")[-1].split("<")[0] in PASS and d[3]["args"]:
+                        pl = op_place(d[3]["args"][0])
+                        continue
+                    return ("call", callee_name(d[3]) or g)
+                rv = d[3]
+                if rv["r"] in ("ref", "cfd") and isinstance(rv.get("p"), dict):
+                    pl = rv["p"]
+                elif rv["r"] in ("use", "cast"):
+                    pl = op_place(rv["o"])
+                else:
+                    return ("local", pl["l"])
+            return None
+        ins_roots = {key_root(t["args"][1]) for _, t in tests
+                     if (callee_generic(t) or "").split("::")[-1] == "insert" and len(t["args"]) > 1}
+        con_roots = {key_root(t["args"][1]) for _, t in tests
+                     if (callee_generic(t) or "").split("::")[-1] == "contains" and len(t["args"]) > 1}
+        same = (not con_roots) or (None in ins_roots | con_roots) or ins_roots <= con_roots
+        rep.oblige("WORKLIST", short + ":same-key", same,
+                   sample={"rule": "WORKLIST", "loop": suffix, "recorded": sorted(map(str, ins_roots)),
+                           "tested": sorted(map(str, con_roots))})
+        if not same:
+            rep.add(Finding("WORKLIST", "WORKLIST|%s|same-key" % short,
+                            "in %s the visited set is written with a different key (%s) than the one it is tested "
+                            "with: a module reached again under the tested spelling is not recognised, so an import "
+                            "cycle makes the work list grow forever"
+                            % (short, ", ".join(str(r[1]) for r in ins_roots - con_roots if r)),
+                            file=f.file, line=f.line, fn=f.path))
         rep.oblige("WORKLIST", short, ok, sample={"rule": "WORKLIST", "loop": suffix, "work": work,
                                                   "visited_test_dominates_work": ok})
         if not ok:
